@@ -88,6 +88,14 @@ def build(case):
         # points: success is False although fitted parameters exist
         kw["range_type"] = "relative cp"
         kw["range_x"] = [-1e-9, 1e-9]
+    if st == "fitted-relative":
+        # a successful fit on a proper part of the approach segment
+        kw["range_type"] = "relative cp"
+        kw["range_x"] = [-4e-7, 2e-7]
+    if st == "fitted-interval":
+        x = np.sort(np.asarray(idnt["tip position"])[
+            np.asarray(idnt["segment"]) == 0])
+        kw["range_x"] = [float(x[x.size // 8]), float(x[(6 * x.size) // 8])]
     idnt.fit_model(**kw)
     if st == "edited":
         idnt.fit_properties["weight_cp"] = 0
@@ -133,7 +141,7 @@ def case_fn(case):
             raise
         return out, ("build-raises", type(e).__name__)
     st = case["state"]
-    site = "fitted" if st == "fitted" else "no-current-fit"
+    site = "fitted" if st.startswith("fitted") else "no-current-fit"
     nall = all_names()
 
     def viol(clause, wit, detail):
@@ -145,7 +153,8 @@ def case_fn(case):
     except BaseException as e:
         if isinstance(e, (KeyboardInterrupt, SystemExit, MemoryError)):
             raise
-        clause = "feature-raises" if st == "fitted" else "unfitted-raises"
+        clause = "feature-raises" if st.startswith("fitted") \
+            else "unfitted-raises"
         viol(clause, type(e).__name__, f"compute_features raised {e!r}")
         return out, ("raises", st)
     if cn.indent_canon(idnt) != c0:
@@ -181,7 +190,8 @@ def case_fn(case):
         except BaseException as e:
             if isinstance(e, (KeyboardInterrupt, SystemExit, MemoryError)):
                 raise
-            viol("feature-raises" if st == "fitted" else "unfitted-raises",
+            viol("feature-raises" if st.startswith("fitted")
+                 else "unfitted-raises",
                  f"{wt}:{names}", repr(e))
             continue
         nsub += 1
@@ -294,8 +304,18 @@ def cases(tier):
                 cs.append({"kind": "grid", "model": mk, "noise": 0.01,
                            "spikes": 0, "n": n, "position": "inside",
                            "state": st})
+    # successful fits on a proper part of the approach segment
+    for st in ("fitted-relative", "fitted-interval"):
+        for mk in MODEL_E:
+            for n in (100, 700):
+                for spikes in (0, 3):
+                    for pos in ("inside", "incontact"):
+                        cs.append({"kind": "grid", "model": mk,
+                                   "noise": 0.01, "spikes": spikes, "n": n,
+                                   "position": pos, "state": st})
     for f in RECORDED:
-        for st in ("fitted", "preprocessed", "edited", "unsuccessful",
+        for st in ("fitted", "fitted-relative", "fitted-interval",
+                   "preprocessed", "edited", "unsuccessful",
                    "unsuccessful-relative"):
             cs.append({"kind": "grid", "recorded": f, "state": st})
     return cs
